@@ -806,6 +806,32 @@ def small_words():
     return out
 
 
+def same_text_two_readings(ctx, root):
+    """The same characters read in two different ways within one shell process — as a word (tilde-prefix, brace
+    expression, glob) and as an arithmetic expression / prompt string / quoted text — in both orders and repeated: a
+    parse or pattern cache keyed on the text alone would hand one reading to the other (found missing by seed C05-4).
+    brush against bash on identical script text, run in the fixed directory."""
+    P = "p() { printf '<%s>' \"$@\"; echo; }\n"
+    texts = [("~0", "$((~0))"), ("~+0", "$((~+0))"), ("~-0", "$((~-0))"), ("~1", "$((~1))"), ("~root", "$((~root))"),
+             ("~+", "$((~+1))"), ("a*", "$((a*1))"), ("[ab]", "${a[ab]-w}"), ("~/a*", "$((~a*2))")]
+    scripts = []
+    for word, other in texts:
+        pre = "root=5; a=3; ab=0\ncd %s\n" % sq(root)
+        for body in ("p %s %s" % (other, word), "p %s %s" % (word, other), "p %s; p %s; p %s" % (other, word, other),
+                     "p %s\np %s\np \"%s\" '%s'\np %s" % (word, other, word, word, word),
+                     "f() { p %s; }; g() { p %s; }; g; f; g; f" % (word, other),
+                     "v=%s; p \"$v\" %s; v=%s; p \"$v\" %s" % (other, word, word, other),
+                     "x=%s; p $x %s; PS1x='%s'; p \"${PS1x@P}\" %s" % (sq(word), word, word, word)):
+            scripts.append(P + pre + body + " 2>/dev/null\n")
+    res = lib.pmap(lambda sc: lib.run_both(sc, timeout=20), scripts)
+    for sc, (b, o) in zip(scripts, res):
+        ctx.count("two-readings" + sc, nontrivial=True, bucket="same-text-two-readings")
+        ctx.impl_validated += 1
+        if (b["rc"], b["out"]) != (o["rc"], o["out"]) and not (b["timeout"] or o["timeout"]):
+            ctx.violation("the same text read as a word and as an arithmetic expression / prompt in one shell: brush and bash differ",
+                          {"script": sc, "brush": [b["rc"], b["out"]], "bash": [o["rc"], o["out"]], "brush_stderr": b["err"][-200:]})
+
+
 def run(ctx):
     ok, out = lib.cargo_build([BIN])
     if not ok:
@@ -840,6 +866,7 @@ def run(ctx):
         bouts = decide(ctx, root, cases[:nsmall], "exh")
         decide(ctx, root, cases[nsmall:], "rand")
         sweep(ctx, root, cases)
+        same_text_two_readings(ctx, root)
         ctx.sample({"word": cases[ncorp][0].text, "tokens": cases[ncorp][0].toks, "brush_inproc": bouts[ncorp]})
         ctx.sample({"word": cases[-1][0].text, "tokens": cases[-1][0].toks, "ifs": cases[-1][2], "args": cases[-1][3]})
     finally:
